@@ -1147,7 +1147,13 @@ func (app *App) ErrorHandler(ctx Ctx, err error) error {
 		if prefix == "" || subApp.configured.ErrorHandler == nil {
 			continue
 		}
-		if !strings.HasPrefix(path, prefix) || (len(path) > len(prefix) && path[len(prefix)] != '/' && prefix[len(prefix)-1] != '/') {
+		// An app mounted at "/" inside a mounted app is keyed "<outer prefix>/": it contains
+		// the outer prefix itself as well as everything below it.
+		p := prefix
+		if len(p) > 1 && p[len(p)-1] == '/' {
+			p = p[:len(p)-1]
+		}
+		if p != "/" && path != p && !strings.HasPrefix(path, p+"/") {
 			continue
 		}
 		if len(prefix) > mountedPrefixLen {
